@@ -8,7 +8,7 @@
 From Coq Require Import List NArith Bool.
 From Coq Require Import Strings.Byte.
 From GoBT Require Import lib.Bytes lib.VarInt lib.Sha256 model.Tx spec.DigestSpec model.SigHash
-  model.SigHashWire proofs.SigHashProofs.
+  model.SigHashWire proofs.SigHashProofs proofs.AuditASigHash.
 Import ListNotations.
 Local Open Scope N_scope. Local Open Scope bool_scope.
 
@@ -47,7 +47,11 @@ Theorem C03_legacy_single_bug : forall t i ht inp, ht < 256 -> has_forkid ht = f
 Proof. exact legacy_single_bug. Qed.
 Print Assumptions C03_legacy_single_bug.
 
-(** the transaction passed in is never modified *)
+(** the transaction passed in is never modified
+    (holds by construction of the model: every branch returns the transaction it was given and the edits are
+    made on an immutable copy; what the clause is about - Clone sharing *Output / *Script pointers with the
+    caller, Input.Bytes initialising a nil script in place - cannot be expressed here and is carried by the
+    correspondence, which compares the caller's object field by field before and after) *)
 Theorem C03_legacy_leaves_tx_unchanged : forall t i ht, snd (calc_input_preimage_legacy t i ht) = t.
 Proof. exact legacy_leaves_tx_unchanged. Qed.
 Print Assumptions C03_legacy_leaves_tx_unchanged.
@@ -81,6 +85,26 @@ Theorem C03_legacy_missing_script : forall t i ht inp,
   fst (calc_input_preimage_legacy t i ht) = SErr ErrEmptyPreviousTxScript.
 Proof. exact legacy_missing_script. Qed.
 Print Assumptions C03_legacy_missing_script.
+
+(** one statement of totality: on every well-formed transaction, index and 8-bit type the function answers with
+    bytes or with one of the three errors - never with the panic, log.Fatal or fuel outcomes of the model *)
+Theorem C03_legacy_preimage_total : forall t i ht, wf_tx t -> ht < 256 -> i + 1 < two32 ->
+  answers_s (fst (calc_input_preimage_legacy t i ht)).
+Proof. exact legacy_preimage_total. Qed.
+Print Assumptions C03_legacy_preimage_total.
+(** the same for CalcInputSignatureHash, whichever algorithm the hash type selects *)
+Theorem C03_sighash_total : forall t i ht, wf_tx t -> ht < 256 -> i + 1 < two32 ->
+  N.of_nat (length (tx_outs t)) < two31 -> answers_s (fst (calc_input_signature_hash t i ht)).
+Proof. exact sighash_total. Qed.
+Print Assumptions C03_sighash_total.
+(** and the signature hash ignores unlocking scripts under both algorithms *)
+Theorem C03_sighash_ignores_unlocking_scripts : forall t1 t2 i ht inp1 sc,
+  wf_tx t1 -> wf_tx t2 -> ht < 256 -> i + 1 < two32 ->
+  erase_unlocks t1 = erase_unlocks t2 ->
+  nth_error (tx_ins t1) (N.to_nat i) = Some inp1 -> in_script inp1 = Some sc ->
+  fst (calc_input_signature_hash t1 i ht) = fst (calc_input_signature_hash t2 i ht).
+Proof. exact sighash_ignores_unlocking_scripts. Qed.
+Print Assumptions C03_sighash_ignores_unlocking_scripts.
 
 (** non-vacuity: a 2-in/1-out transaction meets the hypotheses; SINGLE on input 1 hits the bug,
     SINGLE|ANYONECANPAY on input 0 serialises one input and one output; filling in unlocking
